@@ -1360,6 +1360,89 @@ func c10SharedHistory(r *rng, keys [][]byte) []c10Op {
 	return ops
 }
 
+// replicated sub-trie: the same tail set with the same values under 3-5 prefixes of equal depth (byte-identical
+// non-leaf sub-tries, one stored record each), flushed and collapsed/reopened so that all copies are hash nodes of one
+// hash; then updates inside ONE copy at a time interleaved with reads and proofs over ALL copies, with and without
+// flushes, and no collapse: every copy must keep its own content (resolution is by value, not by object)
+func c10ReplicatedHistory(r *rng) []c10Op {
+	ncopies := 3 + r.intn(3)
+	depth := 1 + r.intn(2)
+	var prefixes [][]byte
+	seenP := map[string]bool{}
+	for len(prefixes) < ncopies {
+		p := r.bytes(depth)
+		if r.chance(50) {
+			p[depth-1] = p[depth-1]&0xF0 | 0x07 // same last nibble: the extension above the copy is shared too
+		}
+		if !seenP[string(p)] {
+			seenP[string(p)] = true
+			prefixes = append(prefixes, p)
+		}
+	}
+	t0 := r.bytes(1 + r.intn(2))
+	tails := [][]byte{t0, append(bytes.Clone(t0), byte(r.intn(4))), {t0[0] ^ 0x10}, {t0[0] ^ 0x01, 0x33}}
+	tails = tails[:2+r.intn(3)]
+	vals := [][]byte{{1}, {2}, {1}, {3, 3}}
+	var ops []c10Op
+	for ti, t := range tails {
+		for _, p := range prefixes {
+			ops = append(ops, c10Op{Op: "put", K: hx(append(bytes.Clone(p), t...)), V: hx(vals[ti%len(vals)])})
+		}
+	}
+	if r.chance(30) { // or as one batch per copy
+		ops = ops[:0]
+		for _, p := range prefixes {
+			var kv []c10KV
+			for ti, t := range tails {
+				hv := hx(vals[ti%len(vals)])
+				kv = append(kv, c10KV{K: hx(append(bytes.Clone(p), t...)), V: &hv})
+			}
+			ops = append(ops, c10Op{Op: "batch", KV: kv})
+		}
+	}
+	ops = append(ops, c10Op{Op: "flush"}, pick(r, []c10Op{{Op: "collapse", D: 0}, {Op: "reopen"}, {Op: "collapse", D: 1}, {Op: "collapse", D: 2}}))
+	key := func(ci int) []byte {
+		t := pick(r, tails)
+		if r.chance(25) {
+			t = append(bytes.Clone(t), byte(r.intn(3)))
+		}
+		return append(bytes.Clone(prefixes[ci]), t...)
+	}
+	order := make([]int, ncopies)
+	for i := range order {
+		order[i] = i
+	}
+	for i := range order { // the copy that is modified changes from step to step, each a few times
+		j := i + r.intn(ncopies-i)
+		order[i], order[j] = order[j], order[i]
+	}
+	for _, ci := range order[:ncopies-1] { // one copy is never written
+		for i := 0; i < 1+r.intn(3); i++ {
+			if r.chance(65) {
+				ops = append(ops, c10Op{Op: "put", K: hx(key(ci)), V: hx(pick(r, [][]byte{{9}, {8, 8}, {1}}))})
+			} else {
+				ops = append(ops, c10Op{Op: "del", K: hx(key(ci))})
+			}
+			for j := 0; j < r.intn(3); j++ {
+				k := key(r.intn(ncopies))
+				if r.chance(70) {
+					ops = append(ops, c10Op{Op: "get", K: hx(k)})
+				} else {
+					ops = append(ops, c10Op{Op: "proof", K: hx(k)})
+				}
+			}
+		}
+		if r.chance(35) {
+			ops = append(ops, c10Op{Op: "flush"})
+		}
+		if r.chance(40) {
+			ops = append(ops, c10Op{Op: "getall"})
+		}
+	}
+	ops = append(ops, c10Op{Op: "getall"}, c10Op{Op: "proofall"}, c10Op{Op: "flush"}, c10Op{Op: "getall"}, c10Op{Op: "proofall"})
+	return ops
+}
+
 // c10ModeRuns: the history in the reference-counting storage modes (and ModeAll), with reload, re-reads, proofs
 // and further updates at the end
 func c10ModeRuns(co *caseOut, r *rng, keys [][]byte, base []c10Op) {
@@ -1374,6 +1457,12 @@ func c10ModeRuns(co *caseOut, r *rng, keys [][]byte, base []c10Op) {
 		c10Run(co, "modes", c10Input{Mode: int(m), Ops: general})
 		for _, sh := range shared {
 			c10Run(co, "modes", c10Input{Mode: int(m), Ops: sh})
+		}
+	}
+	for i := 0; i < 2; i++ {
+		rep := c10ReplicatedHistory(r)
+		for _, m := range []mpt.TrieMode{mpt.ModeLatest, mpt.ModeGC, mpt.ModeAll} {
+			c10Run(co, "modes", c10Input{Mode: int(m), Ops: rep})
 		}
 	}
 	if r.chance(25) {
